@@ -253,7 +253,7 @@ func (u *undoFlow) reaches(val ssa.Value, site ssa.CallInstruction, depth int) b
 				// derived.EachPage(journal.Add)
 				if len(args) >= 1 && d[args[0]] {
 					for _, a := range args[1:] {
-						if mc, ok := a.(*ssa.MakeClosure); ok {
+						if mc, ok := resolveFuncValue(a, 0).(*ssa.MakeClosure); ok {
 							if g, ok := mc.Fn.(*ssa.Function); ok && strings.HasSuffix(g.Name(), "$bound") && len(mc.Bindings) == 1 && u.isUndoJournal(mc.Bindings[0], site) {
 								return true
 							}
@@ -510,15 +510,28 @@ func ruleEVENTBOUNDARY(p *Program, rep *Report) {
 	}
 	var cBlk *ssa.BasicBlock
 	cIdx := -1
+	isCommit := func(x ssa.Instruction) bool {
+		c, ok := x.(ssa.CallInstruction)
+		return ok && c.Common().StaticCallee() == commitEv
+	}
 	for _, b := range next.Blocks {
 		for i, ins := range b.Instrs {
-			if c, ok := ins.(ssa.CallInstruction); ok && c.Common().StaticCallee() == commitEv {
+			c, ok := ins.(ssa.CallInstruction)
+			if !ok {
+				continue
+			}
+			if _, isDefer := ins.(*ssa.Defer); isDefer {
+				continue
+			}
+			cal := c.Common().StaticCallee()
+			// the publication itself, or a helper of package pq that publishes on every one of its return paths
+			if cal == commitEv || (cal != nil && fnPkgPath(cal) == modPath+"/pq" && len(cal.Blocks) > 0 && everyReturnPasses(p, cal, isCommit, 0)) {
 				cBlk, cIdx = b, i
 			}
 		}
 	}
 	if cBlk == nil {
-		rep.Unknown("EVENT-BOUNDARY", "Writer.Next|anchor", p.Pos(next.Pos()), "Writer.Next does not call buffer.CommitEvent directly (anchor lost)")
+		rep.Unknown("EVENT-BOUNDARY", "Writer.Next|anchor", p.Pos(next.Pos()), "Writer.Next does not call buffer.CommitEvent, directly or through a helper that always does (anchor lost)")
 		return
 	}
 	// blocks storing each field after the commit point
